@@ -29,7 +29,7 @@ def _mod(prop):
 def run_jobs(jobs, tier, hashseed="0", timeout=None):
     """distribute jobs over worker subprocesses; returns (results, problems)"""
     env.ensure_dirs()
-    timeout = timeout or (900 if tier == "quick" else 7200)
+    timeout = timeout or (1800 if tier == "quick" else 10800)
     nw = max(1, min(NWORK, len(jobs)))
     chunks = [[] for _ in range(nw)]
     for i, j in enumerate(jobs):
